@@ -112,3 +112,24 @@ def _loop_limit(repo, ob, failure):
             if r["rc"] == 0 and n > limit:
                 return {"input": doc, "observed": "exit 0 with %d rects: %d passes ran although loop-limit=%d" % (n, n, limit), "expected": "LoopLimitError"}
     return None
+
+
+@generator("C15.scope.restored")
+def _scope_leak(repo, ob, failure):
+    """a variable bound by a scoping element must be invisible after it, also when the element
+    had to be retried because of a forward reference"""
+    docs = [
+        ('group', '<svg><g k="LEAK"><rect xy="#z|h" wh="2"/></g><rect id="z" wh="2"/><text xy="0" text="[$k]"/></svg>'),
+        ('reuse-position', '<svg><specs><rect id="t" wh="2"/></specs><reuse href="#t" k="LEAK" xy="#z|h"/><rect id="z" wh="2"/><text xy="0" text="[$k]"/></svg>'),
+        ('reuse-size', '<svg><specs><rect id="t" wh="#z"/></specs><reuse href="#t" k="LEAK"/><rect id="z" wh="2"/><text xy="0" text="[$k]"/></svg>'),
+        ('reuse-nested', '<svg><specs><g id="t"><rect xy="#z|h" wh="2"/></g></specs><reuse href="#t" k="LEAK"/><rect id="z" wh="2"/><text xy="0" text="[$k]"/></svg>'),
+    ]
+    fn = ob.get("fn", "")
+    for name, doc in docs:
+        if ("Group" in fn and name != "group") or ("Reuse" in fn and not name.startswith("reuse")):
+            continue
+        r = run_svgdx(repo, doc)
+        if r["rc"] == 0 and "[LEAK]" in r["out"]:
+            return {"input": doc, "input_description": name, "observed": "text rendered as [LEAK]: the binding escaped its element",
+                    "expected": "[$k] left verbatim (undefined outside the element)"}
+    return None
